@@ -637,6 +637,4 @@ var ufDecls = map[string]string{
 	"txtCat": "(declare-fun txtCat (Txt Txt) Txt)",
 	"txtRune": "(declare-fun txtRune ((_ BitVec 32)) Txt)",
 	"txtEmpty": "(declare-fun txtEmpty () Txt)",
-	"isLetterU": "(declare-fun isLetterU ((_ BitVec 32)) Bool)",
-	"isMarkU": "(declare-fun isMarkU ((_ BitVec 32)) Bool)",
 }
